@@ -332,6 +332,32 @@ example : (mergeL [(⟨⟨1, 1, fun _ _ => (5 : Int)⟩, 0, 0⟩ : Fld Int)]).ma
     (mergeL [(⟨⟨1, 1, fun _ _ => (2 : Int)⟩, 0, 0⟩ : Fld Int), ⟨⟨1, 1, fun _ _ => 3⟩, 0, 0⟩]).map
       (fun p => (p.arr.s0, p.arr.s1, p.extent, p.emb 0 0)) = some (1, 1, ⟨0, 0, 0, 0⟩, 5) := by decide
 
+/-- **a merge does not depend on the absolute position**: merging the fields moved by (d0, d1) gives the merge moved by
+(d0, d1) — the same values at the shifted pixels of the plane, at any distance from the origin and on either side of it -/
+theorem merge_translate {K : Type} [AddZeroClass K] (fs : List (Fld K)) (hne : fs ≠ [])
+    (hpos : ∀ f ∈ fs, 0 < f.arr.s0 ∧ 0 < f.arr.s1) (d0 d1 : Int) (p p' : Fld K) (hp : mergeL fs = some p)
+    (hp' : mergeL (fs.map fun f => f.translate d0 d1) = some p') (r c : Int) :
+    p'.emb r c = p.emb (r - d0) (c - d1) := by
+  rw [merge_emb fs hne hpos p hp (r - d0) (c - d1)]
+  rw [merge_emb (fs.map fun f => f.translate d0 d1) (by simpa using hne) (by
+    intro f hf; obtain ⟨f0, hf0, rfl⟩ := List.mem_map.mp hf; exact hpos f0 hf0) p' hp' r c]
+  rw [sumList_map]
+  exact sumList_congr fs _ _ (fun f _ => Fld.translate_emb f d0 d1 r c)
+
+/-- **a merge does not depend on the order of the fields**: any reordering merges to the same embedding -/
+theorem merge_order_independent {K : Type} [AddCommMonoid K] (fs fs' : List (Fld K)) (hperm : fs.Perm fs') (hne : fs ≠ [])
+    (hpos : ∀ f ∈ fs, 0 < f.arr.s0 ∧ 0 < f.arr.s1) (p p' : Fld K) (hp : mergeL fs = some p) (hp' : mergeL fs' = some p')
+    (r c : Int) : p.emb r c = p'.emb r c := by
+  have hne' : fs' ≠ [] := by
+    intro h0; rw [h0] at hperm; exact hne hperm.eq_nil
+  rw [merge_emb fs hne hpos p hp r c,
+    merge_emb fs' hne' (fun f hf => hpos f (hperm.mem_iff.mpr hf)) p' hp' r c]
+  exact sumList_perm hperm _
+/-- non-vacuity: `N1`, `N2` moved by (+20, +30) and swapped -/
+example : (mergeL ([Ex.N1, Ex.N2].map fun f => f.translate 20 30)).map (fun p => (p.extent, p.emb 15 25)) =
+      (mergeL [Ex.N1, Ex.N2]).map (fun p => (p.extent.shift 20 30, p.emb (-5) (-5))) ∧
+    (mergeL [Ex.N2, Ex.N1]).map (fun p => p.emb (-8) (-3)) = (mergeL [Ex.N1, Ex.N2]).map (fun p => p.emb (-8) (-3)) := by decide
+
 /-- the per-field slice of `_merge_slices` (generated `Gen.mergeSlice`, general branch) is the closed form the hand model
 `mergeL` writes in its guard (`e.rmin − b.rmin ≤ i < e.rmax − b.rmin + 1`, same for columns); and for a member extent
 contained in the box it is in range of the merged array (`_merge_shape`) and has exactly the member's shape, so
@@ -428,6 +454,23 @@ theorem boundary_translate (es : List Extent) (hne : es ≠ []) (d0 d1 : Int)
 /-- non-vacuity: the wholly negative pair moved by (+20, +30) and listed in the other order -/
 example : boundaryL (([⟨-9, -7, -4, -3⟩, ⟨-6, -5, -8, -6⟩] : List Extent).map fun e => e.shift 20 30) = ⟨11, 15, 22, 27⟩ ∧
     boundaryL [⟨-6, -5, -8, -6⟩, ⟨-9, -7, -4, -3⟩] = boundaryL [⟨-9, -7, -4, -3⟩, ⟨-6, -5, -8, -6⟩] := by decide
+
+/-- the merged array of a moved collection (`merge_translate`) occupies the moved box (extents within ±(2^63 − 1) before and after the move) -/
+theorem merge_translate_extent {K : Type} [AddZeroClass K] (fs : List (Fld K)) (hne : fs ≠ [])
+    (hpos : ∀ f ∈ fs, 0 < f.arr.s0 ∧ 0 < f.arr.s1) (d0 d1 : Int) (p p' : Fld K) (hp : mergeL fs = some p)
+    (hp' : mergeL (fs.map fun f => f.translate d0 d1) = some p')
+    (hM : ∀ e ∈ fs.map Fld.extent, e.rmin ≤ 9223372036854775807 ∧ -9223372036854775807 ≤ e.rmax ∧
+                    e.cmin ≤ 9223372036854775807 ∧ -9223372036854775807 ≤ e.cmax)
+    (hM' : ∀ e ∈ fs.map Fld.extent, e.rmin + d0 ≤ 9223372036854775807 ∧ -9223372036854775807 ≤ e.rmax + d0 ∧
+                     e.cmin + d1 ≤ 9223372036854775807 ∧ -9223372036854775807 ≤ e.cmax + d1) :
+    p'.extent = p.extent.shift d0 d1 := by
+  rw [mergeL_extent fs hne hpos p hp]
+  rw [mergeL_extent (fs.map fun f => f.translate d0 d1) (by simpa using hne) (by
+    intro f hf; obtain ⟨f0, hf0, rfl⟩ := List.mem_map.mp hf; exact hpos f0 hf0) p' hp']
+  have hmap : (fs.map fun f => f.translate d0 d1).map Fld.extent = (fs.map Fld.extent).map fun e => e.shift d0 d1 := by
+    rw [List.map_map, List.map_map]; apply List.map_congr_left; intro f _; exact Fld.translate_extent f d0 d1
+  rw [hmap]
+  exact boundary_translate (fs.map Fld.extent) (by simpa using hne) d0 d1 hM hM'
 
 /-! ## Reduce -/
 section reduce
@@ -577,6 +620,34 @@ example : (reduce [(⟨⟨1, 1, fun _ _ => (2 : Int)⟩, 0, 0⟩ : Fld Int), Ex.
       (fun o => o.map fun p => (p.extent, p.emb 0 0)) = [some (⟨0, 0, 0, 0⟩, 5), some (Ex.C.extent, 0)] := by decide
 /-- non-vacuity: the example collection consists of multi-element fields -/
 example : ∀ f ∈ [Ex.A, Ex.C, Ex.B], (0 < f.arr.s0 ∧ 0 < f.arr.s1) ∧ f.size1 = false := by decide
+
+/-- **the reduced total does not depend on the absolute position**: reducing the collection moved by (d0, d1) yields fields
+whose total is the original reduced total read at (r − d0, c − d1) -/
+theorem reduce_translate_total (fs : List (Fld K)) (hpos : ∀ f ∈ fs, 0 < f.arr.s0 ∧ 0 < f.arr.s1) (d0 d1 : Int)
+    (out out' : List (Fld K)) (hout : reduce fs = out.map some)
+    (hout' : reduce (fs.map fun f => f.translate d0 d1) = out'.map some) (r c : Int) :
+    sumList out' (fun f => f.emb r c) = sumList out (fun f => f.emb (r - d0) (c - d1)) := by
+  rw [reduce_total fs hpos out hout (r - d0) (c - d1)]
+  rw [reduce_total (fs.map fun f => f.translate d0 d1) (by
+    intro f hf; obtain ⟨f0, hf0, rfl⟩ := List.mem_map.mp hf; exact hpos f0 hf0) out' hout' r c]
+  rw [sumList_map]
+  exact sumList_congr fs _ _ (fun f _ => Fld.translate_emb f d0 d1 r c)
+
+/-- **the reduced total does not depend on the order of the fields** -/
+theorem reduce_order_total (fs fs' : List (Fld K)) (hperm : fs.Perm fs') (hpos : ∀ f ∈ fs, 0 < f.arr.s0 ∧ 0 < f.arr.s1)
+    (out out' : List (Fld K)) (hout : reduce fs = out.map some) (hout' : reduce fs' = out'.map some) (r c : Int) :
+    sumList out (fun f => f.emb r c) = sumList out' (fun f => f.emb r c) := by
+  rw [reduce_total fs hpos out hout r c,
+    reduce_total fs' (fun f hf => hpos f (hperm.mem_iff.mpr hf)) out' hout' r c]
+  exact sumList_perm hperm _
+/-- the unconditional statements instantiated on the example collection (three multi-element fields, one merge) -/
+example : ∃ out : List (Fld Int), reduce [Ex.A, Ex.C, Ex.B] = out.map some ∧
+    out.Pairwise (fun a b => ∀ r c, ¬(a.extent.inb r c = true ∧ b.extent.inb r c = true)) ∧
+    ∀ r c, sumList out (fun f => f.emb r c) = sumList [Ex.A, Ex.C, Ex.B] (fun f => f.emb r c) :=
+  reduce_spec [Ex.A, Ex.C, Ex.B] (by decide)
+example : ∃ p, mergeL [Ex.N1, Ex.N2] = some p ∧ p.extent = boundaryL ([Ex.N1, Ex.N2].map Fld.extent) ∧
+    ∀ r c, p.emb r c = sumList [Ex.N1, Ex.N2] (fun f => f.emb r c) :=
+  merge_spec [Ex.N1, Ex.N2] (by decide) (by decide)
 
 /-- `reduce` never returns more fields than it was given, and returns one field per final group -/
 theorem reduce_length_le (fs : List (Fld K)) : (reduce fs).length ≤ fs.length := by
@@ -1021,6 +1092,33 @@ theorem empty_product_is_zero (a b : Fld K) (hab : (a.size1 && b.size1) = false)
 /-- non-vacuity: `A * B` (one shared pixel, value 40) inserted with weight 2 into the 3×3 target `T` lands on the centre sample -/
 example : (Ex.A.mul Ex.B).map (fun p => ((insertArr p Ex.T 2 id).get 1 1, (insertArr p Ex.T 2 id).get 0 1)) =
     some (Ex.T.get 1 1 + 40 * 2, Ex.T.get 0 1) := by decide
+
+/-- **insertions commute**: accumulating `f` and then `g` into a target gives, sample by sample, what accumulating `g` and
+then `f` gives (each with its own weight and `post`) — the composite image does not depend on the order of the fields -/
+theorem insert_comm (f g : Fld K) (out : Arr K) (w w' : K) (post post' : K → K) (i j : Int)
+    (hi : 0 ≤ i ∧ i < out.s0) (hj : 0 ≤ j ∧ j < out.s1) :
+    (insertArr g (insertArr f out w post) w' post').get i j = (insertArr f (insertArr g out w' post') w post).get i j := by
+  have s1 := insert_shape f out w post
+  have s2 := insert_shape g out w' post'
+  rw [insert_emb g _ w' post' i j (by rw [s1.1]; exact hi) (by rw [s1.2]; exact hj),
+      insert_emb f out w post i j hi hj,
+      insert_emb f _ w post i j (by rw [s2.1]; exact hi) (by rw [s2.2]; exact hj),
+      insert_emb g out w' post' i j hi hj, s1.1, s1.2, s2.1, s2.2]
+  exact add_right_comm _ _ _
+
+/-- **inserting the same field twice adds up the weights**: `insert(f, insert(f, out, w₁), w₂) = insert(f, out, w₁ + w₂)` -/
+theorem insert_weights_add (f : Fld K) (out : Arr K) (w₁ w₂ : K) (post : K → K) (i j : Int)
+    (hi : 0 ≤ i ∧ i < out.s0) (hj : 0 ≤ j ∧ j < out.s1) :
+    (insertArr f (insertArr f out w₁ post) w₂ post).get i j = (insertArr f out (w₁ + w₂) post).get i j := by
+  have s1 := insert_shape f out w₁ post
+  rw [insert_emb f _ w₂ post i j (by rw [s1.1]; exact hi) (by rw [s1.2]; exact hj),
+      insert_emb f out w₁ post i j hi hj, insert_emb f out (w₁ + w₂) post i j hi hj, s1.1, s1.2]
+  by_cases hb : f.extent.inb (i - out.s0 / 2) (j - out.s1 / 2) = true
+  · simp only [hb, if_true]; rw [add_assoc, ← mul_add]
+  · simp only [hb, Bool.false_eq_true, if_false, add_zero]
+/-- non-vacuity on the 3×3 target `T`: `A` then `B` = `B` then `A`; weight 2 then 3 = weight 5 -/
+example : (insertArr Ex.B (insertArr Ex.A Ex.T 2 id) 3 id).get 1 1 = (insertArr Ex.A (insertArr Ex.B Ex.T 3 id) 2 id).get 1 1 ∧
+    (insertArr Ex.A (insertArr Ex.A Ex.T 2 id) 3 id).get 1 1 = (insertArr Ex.A Ex.T 5 id).get 1 1 := by decide
 
 end insert
 
